@@ -17,7 +17,7 @@ META = {
     "bounds": {"quick": "4 shapes (feature+rule backgrounds, outline rows, two features, tags), outcomes over {pass, assert-fail, exception} + undefined "
                         "steps, show_skipped/dry-run/--stop symbolic, selection symbolic in one shape, a raising feature-level cleanup in one shape; "
                         "5 formatter line-ups (subsets/orders of plain, progress, progress2, progress3, json, pretty) chosen symbolically, two recording "
-                        "formatters at both ends of the line-up",
+                        "formatters at both ends of the line-up; jobs with a scenario skipped by a hook, @wip pending steps and parameter-conversion errors",
                "thorough": "7 shapes, all outcomes, hook faults"},
     "outside": ["colour/ANSI output of pretty, terminal width", "json.dumps itself (stdlib; output is re-parsed)", "show_timings numbers"],
     "assumptions": [],
